@@ -14,11 +14,19 @@
     and likewise for the rotation by k grid steps (orography rotated too), and for the
     implicit terms / implicit inverse (column operators depending on l only).  Not
     proved here (explored on the implementation by the plugin's oracles): the explicit
-    terms of shallow_water.py and held_suarez.py (no Coq model of them exists), and the
+    terms of held_suarez.py (no Coq model of them exists), and the
     composition tendencies -> integrator step for the concrete operators (the step
-    theorems are over abstract equivariant F, G, G_inv). *)
+    theorems are over abstract equivariant F, G, G_inv).
+
+    Shallow water (section C10_shallow_water): ShallowWaterEquations.explicit_terms is
+    modelled in Model/ShallowWater.v (nodal algebra of one node and all layers, density
+    ratios, orography, assembly over the concrete transforms / spectral operators with
+    their default clip=True) and proved mirror- and rotation-equivariant end to end:
+    explicit_terms of the transformed MODAL state (orography transformed too) is the
+    transformed explicit_terms, for every number of layers, any densities, both layouts
+    (theorems C10_sw_...; proofs in Thm/ShallowWater.v). *)
 From Dino Require Import Base.Ops Base.Sums Base.Inst Gen.DerivExprs Model.SHT Model.Deriv Model.Invariants Model.Sigma Model.Implicit
-     Model.PrimEq Model.Symmetry Thm.Deriv Thm.Implicit Thm.Symmetry.
+     Model.PrimEq Model.Symmetry Model.ShallowWater Thm.Deriv Thm.Implicit Thm.Symmetry Thm.ShallowWater.
 From Coq Require Import Qcanon.
 Local Open Scope F_scope.
 
@@ -509,6 +517,128 @@ Proof.
   repeat split; intros; subst; try reflexivity; try congruence; cbn; ring.
 Qed.
 
+
+(** *** shallow water: ShallowWaterEquations.explicit_terms (Model/ShallowWater.v) *)
+Section C10_shallow_water.
+  Context {F : Type} {o : Ops F} {Fc : FieldC o}.
+
+  (** (a) the nodal algebra of one node: with sg = -1 (mirror: u even, v odd, vorticity odd, potential even, sec2 even,
+      f odd) nodal_b is an (odd, even) pair, nodal_g an (even, odd) pair, nodal_e even; with sg = 1 nothing changes *)
+  Theorem C10_sw_nodal_equivariant (sg : F) (x : SWCol) k :
+    sg * sg = 1 ->
+    (sw_b_u (swcol_act sg x) k = sg * sw_b_u x k /\ sw_b_v (swcol_act sg x) k = sw_b_v x k /\
+     sw_g_u (swcol_act sg x) k = sw_g_u x k /\ sw_g_v (swcol_act sg x) k = sg * sw_g_v x k /\
+     sw_e (swcol_act sg x) k = sw_e x k) /\
+    (sw_b_u (swcol_mirror x) k = - sw_b_u x k /\ sw_b_v (swcol_mirror x) k = sw_b_v x k /\
+     sw_g_u (swcol_mirror x) k = sw_g_u x k /\ sw_g_v (swcol_mirror x) k = - sw_g_v x k /\
+     sw_e (swcol_mirror x) k = sw_e x k).
+  Proof. intros Hs. split; [exact (sw_nodal_act sg x k Hs)|exact (sw_nodal_mirror x k)]. Qed.
+
+  Section Mirror.
+    Variables (fast : bool) (R L I J N : nat) (f : nat -> nat -> F) (p : nat -> nat -> nat -> F) (wq : nat -> F)
+              (rad : F) (wa wb : @marr F) (dens : nat -> F).
+    Hypothesis HR : layout_ok fast R.
+    Hypothesis Hpar : H_parity fast R L J p.
+    Hypothesis Hnod : H_nodes_sym J wq.
+    Let toM := sw_toM R L I J f p wq.
+    Let divc := sw_divc fast R L rad wa wb.
+    Let curlc := sw_curlc fast R L rad wa wb.
+    Let lap := sw_lap (F := F) L rad.
+    Let clp := sw_clip (F := F) L.
+
+    (** (b) the assembled tendencies of ANY family of columns X' that agrees (layers < N, nodes in range) with the mirrored
+        family of X - potentials and orography mirrored too: vorticity tendency pseudo-scalar, the others scalars *)
+    Theorem C10_sw_tendency_mirror_equivariant (X X' : Wn -> SWCol) (pot pot' : nat -> Wn -> F) (orog : option (Wn -> F)) r a l :
+      sw_cols_eqv Wn (inPc I J) N X' (sw_actX Wn (piNc J) (- (1)) X) ->
+      (forall b w', (b < N)%nat -> inWc R L w' -> pot' b w' = Sec fast (pot b) w') ->
+      (r < N)%nat -> (a < R)%nat -> (l < L)%nat ->
+      sw_vort_explicit Wn Wn toM divc clp X' r (a, l)
+        = mir_modal fast true (un (sw_vort_explicit Wn Wn toM divc clp X r)) a l /\
+      sw_div_explicit Wn Wn toM curlc lap clp N dens X' pot' (option_map (Sec fast) orog) r (a, l)
+        = mir_modal fast false (un (sw_div_explicit Wn Wn toM curlc lap clp N dens X pot orog r)) a l /\
+      sw_pot_explicit Wn Wn toM divc clp X' r (a, l)
+        = mir_modal fast false (un (sw_pot_explicit Wn Wn toM divc clp X r)) a l.
+    Proof. intros; eapply sw_tendency_mirror_equivariant; eassumption. Qed.
+
+    (** (c) the whole method on MODAL states: explicit_terms(mirror state, mirror orography) = mirror explicit_terms *)
+    Theorem C10_sw_explicit_terms_mirror_equivariant (omega : F) (sinlat : nat -> F) (orog : option marr)
+            (vort dive pot : nat -> marr) r a l :
+      (forall j, (j < J)%nat -> sinlat (J - 1 - j)%nat = - sinlat j) ->
+      (r < N)%nat -> (a < R)%nat -> (l < L)%nat ->
+      let E := sw_explicit_terms fast R L I J N f p wq rad wa wb dens omega sinlat in
+      let T := E orog vort dive pot in
+      let T' := E (option_map (mir_modal fast false) orog) (fun k => mir_modal fast true (vort k))
+                  (fun k => mir_modal fast false (dive k)) (fun k => mir_modal fast false (pot k)) in
+      fst (fst T') r (a, l) = mir_modal fast true (un (fst (fst T) r)) a l /\
+      snd (fst T') r (a, l) = mir_modal fast false (un (snd (fst T) r)) a l /\
+      snd T' r (a, l) = mir_modal fast false (un (snd T r)) a l.
+    Proof. intros; eapply sw_explicit_terms_mirror_equivariant; eassumption. Qed.
+  End Mirror.
+
+  Section Rot.
+    Variables (fast : bool) (R L I J N : nat) (f : nat -> nat -> F) (p : nat -> nat -> nat -> F) (wq : nat -> F)
+              (rad : F) (wa wb : @marr F) (dens : nat -> F) (k : nat) (rc rs : nat -> F).
+    Hypothesis HR : layout_ok fast R.
+    Hypothesis Hrot : H_rot_table fast R I f k rc rs.
+    Hypothesis Hpp : H_p_pairs fast R L J p.
+    Hypothesis Hun : H_rot_unit rc rs.
+    Hypothesis Hwa : sym_rows fast R wa.
+    Hypothesis Hwb : sym_rows fast R wb.
+    Let toM := sw_toM R L I J f p wq.
+    Let divc := sw_divc fast R L rad wa wb.
+    Let curlc := sw_curlc fast R L rad wa wb.
+    Let lap := sw_lap (F := F) L rad.
+    Let clp := sw_clip (F := F) L.
+
+    (** (d) rotation by k longitude grid steps: columns shifted by k nodes, potentials and orography rotated *)
+    Theorem C10_sw_tendency_rot_equivariant (X X' : Wn -> SWCol) (pot pot' : nat -> Wn -> F) (orog : option (Wn -> F)) r a l :
+      sw_cols_eqv Wn (inPc I J) N X' (fun q => X (piNr I k q)) ->
+      (forall b w', (b < N)%nat -> inWc R L w' -> pot' b w' = Rmc fast rc rs (pot b) w') ->
+      (r < N)%nat -> (a < R)%nat -> (l < L)%nat ->
+      sw_vort_explicit Wn Wn toM divc clp X' r (a, l)
+        = rot_modal fast rc rs (un (sw_vort_explicit Wn Wn toM divc clp X r)) a l /\
+      sw_div_explicit Wn Wn toM curlc lap clp N dens X' pot' (option_map (Rmc fast rc rs) orog) r (a, l)
+        = rot_modal fast rc rs (un (sw_div_explicit Wn Wn toM curlc lap clp N dens X pot orog r)) a l /\
+      sw_pot_explicit Wn Wn toM divc clp X' r (a, l)
+        = rot_modal fast rc rs (un (sw_pot_explicit Wn Wn toM divc clp X r)) a l.
+    Proof. intros; eapply sw_tendency_rot_equivariant; eassumption. Qed.
+
+    (** (e) the whole method on MODAL states: explicit_terms(rotated state, rotated orography) = rotated explicit_terms *)
+    Theorem C10_sw_explicit_terms_rot_equivariant (omega : F) (sinlat : nat -> F) (orog : option marr)
+            (vort dive pot : nat -> marr) r a l :
+      (r < N)%nat -> (a < R)%nat -> (l < L)%nat ->
+      let E := sw_explicit_terms fast R L I J N f p wq rad wa wb dens omega sinlat in
+      let T := E orog vort dive pot in
+      let T' := E (option_map (rot_modal fast rc rs) orog) (fun n => rot_modal fast rc rs (vort n))
+                  (fun n => rot_modal fast rc rs (dive n)) (fun n => rot_modal fast rc rs (pot n)) in
+      fst (fst T') r (a, l) = rot_modal fast rc rs (un (fst (fst T) r)) a l /\
+      snd (fst T') r (a, l) = rot_modal fast rc rs (un (snd (fst T) r)) a l /\
+      snd T' r (a, l) = rot_modal fast rc rs (un (snd T r)) a l.
+    Proof. intros; eapply sw_explicit_terms_rot_equivariant; eassumption. Qed.
+  End Rot.
+End C10_shallow_water.
+
+(** Non-vacuity of the shallow-water statements over Qc: sin(latitude) nodes -1/2, 1/2 of C10_example are antisymmetric (the only
+    new hypothesis; the table hypotheses are those of C10_example), the density ratios of (1, 5/4, 3/2) are the
+    non-trivial matrix [[0,1,1],[4/5,0,1],[2/3,5/6,0]], and on a concrete two-layer column every nodal expression is
+    non-zero and changes under the mirror exactly as stated. *)
+Definition ex_swcol : @SWCol Qc :=
+  mkSWCol (ex_q [1 # 2; 1 # 3]%Q) (ex_q [1 # 5; -1 # 7]%Q) (ex_q [2; 3]%Q) (ex_q [1; 1 # 4]%Q) (Q2Qc (4 # 3)) (Q2Qc (1 # 2)).
+Example C10_sw_example :
+  (forall j, (j < 2)%nat -> ex_q [-1 # 2; 1 # 2]%Q (2 - 1 - j)%nat = - ex_q [-1 # 2; 1 # 2]%Q j) /\
+  sw_sec2 (ex_q [-1 # 2; 1 # 2]%Q) 0%nat = Q2Qc (4 # 3) /\
+  map (fun a => map (fun b => this (density_ratio (ex_q [1; 5 # 4; 3 # 2]%Q) a b)) [0; 1; 2]%nat) [0; 1; 2]%nat
+    = [[0; 1; 1]; [4 # 5; 0; 1]; [2 # 3; 5 # 6; 0]]%Q /\
+  sw_b_u ex_swcol 1%nat = Q2Qc (14 # 9) /\ sw_b_u (swcol_mirror ex_swcol) 1%nat = Q2Qc (- 14 # 9) /\
+  sw_b_v ex_swcol 1%nat = Q2Qc (- 2 # 3) /\ sw_b_v (swcol_mirror ex_swcol) 1%nat = Q2Qc (- 2 # 3) /\
+  sw_g_v ex_swcol 1%nat <> 0 /\ sw_e ex_swcol 0%nat <> 0.
+Proof.
+  split. { intros j Hj. destruct j as [|[|j]]; try lia; apply Qc_is_canon; vm_compute; reflexivity. }
+  repeat split; try (apply Qc_is_canon; vm_compute; reflexivity); try (vm_compute; reflexivity).
+  - intro H. apply (f_equal (fun q : Qc => Qeq_bool q 0)) in H. vm_compute in H. discriminate H.
+  - intro H. apply (f_equal (fun q : Qc => Qeq_bool q 0)) in H. vm_compute in H. discriminate H.
+Qed.
+
 Print Assumptions C10_rot_group.
 Print Assumptions C10_rot_steps.
 Print Assumptions C10_rot_inverse.
@@ -546,3 +676,9 @@ Print Assumptions C10_primeq_humidity_rot.
 Print Assumptions C10_implicit_terms_equivariant.
 Print Assumptions C10_implicit_inverse_equivariant.
 Print Assumptions C10_example.
+Print Assumptions C10_sw_nodal_equivariant.
+Print Assumptions C10_sw_tendency_mirror_equivariant.
+Print Assumptions C10_sw_explicit_terms_mirror_equivariant.
+Print Assumptions C10_sw_tendency_rot_equivariant.
+Print Assumptions C10_sw_explicit_terms_rot_equivariant.
+Print Assumptions C10_sw_example.
